@@ -20,7 +20,7 @@ from fractions import Fraction as F
 import core
 import gen
 
-PROOF_MODULES = ["UnytProofs.C15Relations", "UnytProofs.C15", "UnytProofs.C15Tab1", "UnytProofs.C15Tab2", "UnytProofs.C15Tab3", "UnytProofs.C15Tab4"]
+PROOF_MODULES = ["UnytProofs.C15Relations", "UnytProofs.C15", "UnytProofs.C15AddConstants", "UnytProofs.C15TabAdd", "UnytProofs.C15Tab1", "UnytProofs.C15Tab2", "UnytProofs.C15Tab3", "UnytProofs.C15Tab4"]
 
 GUISE_TOL = F(1, 2 ** 45)
 C2_1E7 = F(299792458) ** 2 / 10 ** 7  # 1/(4 pi eps_0) in the pre-2019 SI: (q_Gauss / q_SI)^2
@@ -68,7 +68,7 @@ def same(a, b, tol=TOL):
 
 def space(sid):
     """the namespace `sid`: pc | top | fresh | sys:<unit system> | custom-registry (user units added) |
-    custom:<length>,<mass>,<time>,<temperature>"""
+    custom:<length>,<mass>,<time>,<temperature>[,<current>]"""
     if sid == "pc":
         import unyt.physical_constants as pc
         return {k: v for k, v in vars(pc).items() if isinstance(v, unyt_quantity)}
@@ -85,14 +85,30 @@ def space(sid):
         reg.add("c15_scruple", 1.2959782e-3, D.mass)
         add_constants(ns, reg)
     elif sid.startswith("custom:"):
-        l, m, t, T = sid[7:].split(",")
-        name = "c15_" + "_".join((l, m, t, T))
+        parts = sid[7:].split(",")
+        l, m, t, T = parts[:4]
+        name = "c15_" + "_".join(parts)
         if name not in unit_system_registry:
-            UnitSystem(name, l, m, t, temperature_unit=T)
+            if len(parts) > 4:  # a unit system whose MKS current unit is not the ampere
+                UnitSystem(name, l, m, t, temperature_unit=T, current_mks_unit=parts[4])
+            else:
+                UnitSystem(name, l, m, t, temperature_unit=T)
         add_constants(ns, UnitRegistry(unit_system=name))
     else:
         raise KeyError(sid)
     return ns
+
+def unit_system_of(sid):
+    """the unit system the namespace `sid` was built for (call after space(sid))"""
+    if sid in ("pc", "top", "fresh"):
+        return unit_system_registry["mks"]
+    if sid.startswith("sys:"):
+        return unit_system_registry[sid[4:]]
+    if sid == "custom-registry":
+        return unit_system_registry["imperial"]
+    if sid.startswith("custom:"):
+        return unit_system_registry["c15_" + "_".join(sid[7:].split(","))]
+    raise KeyError(sid)
 
 class SI(dict):
     """view of a namespace with every entry converted to MKS on access: the defining relations are
@@ -181,10 +197,14 @@ def run(tier, seed):
     masses = ["kg", "g", "lb", "oz", "Msun", "Mearth", "amu", "me", "t", "slug", "mg"]
     times = ["s", "min", "hr", "day", "yr", "Myr", "ms", "fortnight", "ns"]
     temps = ["K", "R"]
+    currents = ["mA", "kA", "µA", "MA", "nA"]  # `current_mks_unit=`: a rarely used keyword of UnitSystem
     nextra = 6 if tier == "quick" else 60
     extra = []
     while len(extra) < nextra:
-        sid = "custom:" + ",".join((rng.choice(lengths), rng.choice(masses), rng.choice(times), rng.choice(temps)))
+        parts = [rng.choice(lengths), rng.choice(masses), rng.choice(times), rng.choice(temps)]
+        if len(extra) % 3 == 1:  # every third extra system (at least two per quick run) has a prefixed current unit
+            parts.append(rng.choice(currents))
+        sid = "custom:" + ",".join(parts)
         if sid not in extra and sid not in sids:
             extra.append(sid)
     live = {}
@@ -241,6 +261,112 @@ def run(tier, seed):
             if r != want:
                 chk.disagree("dump.mat", f"{gid}/{k}: generated {r} live {want}")
 
+    # ------------------------------------------------------------------ add_constants through the model (every unit system)
+    # The body of add_constants — quan.in_base(unit_system) with the UnitsNotReducible fall-back, the
+    # _mks entry, quan.in_cgs() — is executed by the model (`AddConstants.addConstantsRow`, built on the
+    # shared model of in_base / _check_em_conversion / _em_conversion) for every table row in every unit
+    # system this run builds (built-in, custom, seeded custom, the registry with user units) and the
+    # three readings are compared with what the library filed under every name of the row.  The
+    # theorems of UnytProofs/C15AddConstants.lean are about exactly these definitions.
+    from unyt.exceptions import MKSCGSConversionError
+    from unyt.unit_object import _check_em_conversion
+    from unyt.unit_systems import unit_system_registry as USR
+
+    def expr_to_wire(e):
+        c, f = gen.expr_wire(e)
+        return f"{c}@{f}"
+
+    def um_wire(S):
+        keys = {getattr(D, n) for n in S._dims} | set(S.base_units)  # without memoised entries: the model synthesises
+        return "|".join(f"{gen.dim_vec(k)}=none" if v is None else f"{gen.dim_vec(k)}={expr_to_wire(v)}"
+                        for k, v in S.units_map.items() if k in keys)
+
+    def system_of(sid):
+        if sid == "fresh":
+            return USR["mks"], ""
+        if sid.startswith("sys:"):
+            return USR[sid[4:]], ""
+        if sid.startswith("custom:"):
+            return USR["c15_" + "_".join(sid[7:].split(","))], ""
+        if sid == "custom-registry":
+            rows = [("c15_rod", 5.0292, D.length), ("c15_scruple", 1.2959782e-3, D.mass)]
+            return USR["imperial"], "|".join(f"{n}&{core.f2b(v)}&{core.f2b(0.0)}&{gen.dim_vec(d)}&0" for n, v, d in rows)
+        return None, ""
+
+    def live_route(u, S):
+        try:
+            cd = _check_em_conversion(u, unit_system=S, registry=u.registry)
+        except MKSCGSConversionError:
+            return "refused"
+        # the short-cut against the declared entries only (memoised ones depend on the history of the
+        # process-wide system object and do not change the result — C10 `memo_transparent`)
+        keys = {getattr(D, n) for n in S._dims} | set(S.base_units)
+        um = {k: v for k, v in S.units_map.items() if k in keys}
+        short = u.dimensions in um and u.expr == um[u.dimensions]
+        if not any(cd):
+            return "plain-shortcut" if short else "plain"
+        return "em-shortcut" if short else ("em-current" if cd[0] is not None else "em-gaussian")
+
+    def reading_ok(field, q):
+        """does the model's reading `value;scale;offset;dim;coeff;factors` describe the live quantity q"""
+        if q is None:
+            return field == "none"
+        parts = field.split(";", 5)
+        if len(parts) != 6:
+            return False
+        try:
+            lc, lf = gen.expr_wire(q.units.expr)
+        except ValueError:
+            return False
+        return (core.close(core.b2f(parts[0]), float(q.value), 1e-11) and core.close(core.b2f(parts[1]), float(q.units.base_value), 1e-11)
+                and core.close(core.b2f(parts[2]), float(q.units.base_offset), 1e-11) and parts[3] == gen.dim_vec(q.units.dimensions)
+                and core.close(core.b2f(parts[4]), core.b2f(lc), 1e-11) and gen.parse_factors(parts[5]) == gen.parse_factors(lf))
+
+    n_before = len(chk.disagreements)
+    try:
+        cgs_um = um_wire(USR["cgs"])
+    except Exception as e:  # noqa: BLE001
+        cgs_um = ""
+        chk.disagree("materialise", f"cgs unit system unreadable: {e!r}")
+    for sid, ns in live.items():
+        try:
+            S, extra_rows = system_of(sid)
+            if S is None:
+                continue
+            umw = um_wire(S)
+            lines, meta = [], []
+            for cname in names:
+                value, unit_name, aliases = TABLE[cname]
+                u = const_unit[cname]
+                lines.append("\t".join(["c15.materialise", extra_rows, umw, cgs_um, expr_to_wire(u.expr), str(core.f2b(float(value)))]))
+                meta.append((cname, list(aliases) + [cname], u))
+        except Exception as e:  # noqa: BLE001
+            chk.disagree("materialise", f"{sid}: request could not be built: {e!r}")
+            continue
+        for (cname, all_names, u), r in zip(meta, ask(lines)):
+            chk.count("materialise:row")
+            chk.case(("materialise", sid, cname))
+            if r[0] != "ok" or len(r) < 5:
+                chk.disagree("materialise", f"{sid}/{cname}: model {r[:3]}")
+                continue
+            try:
+                lr = live_route(u, S)
+            except Exception as e:  # noqa: BLE001
+                lr = f"raised {core.exc_name(e)}"
+            chk.count("route:" + r[1])
+            if lr != r[1]:
+                chk.disagree("materialise.route", f"{sid}/{cname} ({u}): library takes route {lr}, model {r[1]}")
+            for n in all_names:
+                for suf, field in (("", r[2]), ("_mks", r[3]), ("_cgs", r[4])):
+                    q = ns.get(n + suf)
+                    if not reading_ok(field, q):
+                        chk.disagree("materialise", f"{sid}: {n + suf} = {q!r} (unit scale "
+                                     f"{float(q.units.base_value) if q is not None else None!r}) but the model of add_constants "
+                                     f"writes {[core.b2f(x) if x.isdigit() else x for x in field.split(';')[:2]] if field != 'none' else 'nothing'}"
+                                     f" [{field.split(';')[-1]}] via route {r[1]}")
+                        break
+    chk.extra["add_constants_model_disagreements"] = len(chk.disagreements) - n_before
+
     # ------------------------------------------------------------------ symbolic definitions vs the live doubles
     live_ratio = {k: v for k, v in vars(PR).items()
                   if not k.startswith("_") and isinstance(v, (int, float, np.floating, np.integer)) and not isinstance(v, bool)}
@@ -282,6 +408,12 @@ def run(tier, seed):
             and str(u.expr) in ("C", "A", "T", "V", "Ω")
 
     pc_ns = live.get("pc", {})
+    has_current = {}
+    for sid in live:
+        try:
+            has_current[sid] = env["unit_system_of"](sid).units_map[D.current_mks] is not None
+        except Exception as e:  # noqa: BLE001
+            chk.disagree("unit_system_of", f"{sid}: {e!r}")
     for sid, ns in live.items():
         kind = sid if not sid.startswith("custom:") else "custom"
         want_keys = set()
@@ -316,6 +448,16 @@ def run(tier, seed):
                     if g in ("cgs", "hcgs") and D.current_mks in q.units.dimensions.free_symbols:
                         chk.fail(f"cgs-guise-not-cgs|{cname}", f"{sid}: {k} = {q!r} still carries the MKS current dimension",
                                  {"python": snippet(f"ns = space({sid!r})\nassert D.current_mks not in ns[{k!r}].units.dimensions.free_symbols, ns[{k!r}]\n")})
+                    if g in ("plain", "mks", "hmks") and has_current.get(sid, True) and q.units.dimensions != table_q.units.dimensions:
+                        # "equal as quantities" admits the Gaussian counterpart only where SI is not available: in a
+                        # namespace built on a unit system WITH a current unit the constant must keep the dimension
+                        # of the default one (charge in A*s-like units, not statC)
+                        chk.fail(f"dimension|{kind}|{cname}|{g}",
+                                 f"{sid}: {k} = {q!r} has dimension {q.units.dimensions} but the table row {cname} is in {unit_name} "
+                                 f"and the unit system has an MKS current unit",
+                                 {"python": snippet(f"ns = space({sid!r})\nS = unit_system_of({sid!r})\nq = ns[{k!r}]\n"
+                                                    f"assert S.units_map[D.current_mks] is None or "
+                                                    f"q.units.dimensions == Unit(TABLE[{cname!r}][1]).dimensions, (q, S.units_map[D.current_mks])\n")})
                     if not same(q, table_q):
                         chk.fail(f"guise|{kind}|{cname}|{g}",
                                  f"{sid}: {k} = {q!r} is not the quantity of the table row {cname} = {value!r} {unit_name}",
